@@ -11,6 +11,7 @@
   `parentUnchanged` is the second clause as an executable predicate.
 -/
 import YashModel.Fork.Model
+import YashModel.Fork.Shared
 namespace YashModel.Fork
 
 /-- the Spec's prediction of the observation of a case -/
@@ -24,5 +25,52 @@ def parentUnchanged (events : List String) : Bool :=
   match events.find? (·.startsWith "B{"), events.find? (·.startsWith "A{") with
   | some b, some a => sameSnapshot b a
   | _, _ => false
+
+/-! ## Spec of the process table: every process is a value of its own
+
+POSIX: a process's working directory, file mode creation mask, descriptor table, signal dispositions, signal
+mask and resource limits are attributes of THAT process: they are what the process inherited when it was
+created by `fork` (a copy of the creator's, taken at that moment) changed by the calls the process made itself —
+whatever any other process did in between, in whatever order.  `specProc` says exactly that, without any table:
+the history is read latest step first; a step of another process is skipped.  Process ids are handed out in
+order (3, 4, … — the initial process is 2), so a history determines them. -/
+
+/-- how many processes the (reversed) history `h` has created -/
+def specCount : List (Nat × XOp) → Nat
+  | [] => 0
+  | (p, .fork) :: h => if 2 ≤ p ∧ p ≤ 2 + specCount h then specCount h + 1 else specCount h
+  | (_, .call _) :: h => specCount h
+
+/-- the state of process `q` after the (reversed) history `h`: its own calls over what it inherited -/
+def specProc (copied : List (String × String)) : List (Nat × XOp) → Nat → Option Proc
+  | [], q => if q = 2 then some baseEnv.system else none
+  | (p, .call c) :: h, q =>
+    if p = q then (specProc copied h q).map (fun x => (c.run x).2) else specProc copied h q
+  | (p, .fork) :: h, q =>
+    if q = 3 + specCount h ∧ 2 ≤ p ∧ p ≤ 2 + specCount h
+    then (specProc copied h p).map (Proc.forkFrom copied p)
+    else specProc copied h q
+
+/-- what the step `(p, op)` answers after the (reversed) history `h` -/
+def specResult (copied : List (String × String)) (h : List (Nat × XOp)) (p : Nat) (op : XOp) : String :=
+  match specProc copied h p with
+  | none => "nopid"
+  | some x =>
+    match op with
+    | .call c => (c.run x).1
+    | .fork => s!"pid{3 + specCount h}"
+
+/-- all processes after the (reversed) history `h`, by pid -/
+def specTable (copied : List (String × String)) (h : List (Nat × XOp)) : ProcTable :=
+  (List.range (specCount h + 1)).filterMap fun i => (specProc copied h (i + 2)).map fun x => (i + 2, x)
+
+/-- the Spec's prediction of the observation of an `X:` case -/
+def specXObservation (sched : List (Nat × XOp)) : String :=
+  let steps := (List.range sched.length).map fun i =>
+    let h := (sched.take i).reverse
+    match sched[i]? with
+    | some x => specResult specCopied h x.1 x.2 ++ " " ++ showTable { processes := specTable specCopied (x :: h) }
+    | none => "?"
+  " / ".intercalate (("start " ++ showTable { processes := specTable specCopied [] }) :: steps)
 
 end YashModel.Fork
